@@ -12,6 +12,7 @@ import Proofs.Lemmas.InprocUnaryAll
 import Proofs.Lemmas.HttpServerStream
 import Proofs.Lemmas.Metadata
 import Proofs.Lemmas.HttpUnary
+import Proofs.Lemmas.HttpCompose
 
 namespace InprocStream
 
@@ -210,15 +211,8 @@ theorem C02_http_server_trailer_code (cs : Bool) (req : List ReqItem) (acts : Li
   exact ⟨trailersSet acts, by rw [hwire]; simp [List.getLast?_cons]⟩
 
 /-- **…and it says OK only if the handler returned nil**: a non-nil error never travels as code 0 -/
-theorem C02_http_server_ok_only_if_nil (e : Option HErr) : trailerCode e = 0 → e = none := by
-  intro h
-  cases e with
-  | none => rfl
-  | some x =>
-    cases x with
-    | status c => simp only [trailerCode, Gen.streamOkRewrite] at h; split at h <;> simp_all
-    | plain => simp [trailerCode] at h
-    | ctx r => cases r <;> simp [trailerCode, codeOf] at h
+theorem C02_http_server_ok_only_if_nil (e : Option HErr) : trailerCode e = 0 → e = none :=
+  trailerCode_zero e
 
 /-- a failed write (unencodable message, broken connection) means no trailer at all: the client sees a
     truncated stream, never a success -/
@@ -286,3 +280,36 @@ theorem C02_http_ok_rewrite_facts :
     Gen.streamOkRewrite = true ∧ Gen.unaryOkRewrite = true ∧ Gen.streamMessageSanitised = true := by decide
 
 end HttpUnary
+
+namespace HttpCompose
+open HttpClientStream (Act St finalOf)
+
+/-- **HTTP streams end to end: the status the client holds is the handler's.** Whatever the handler
+    program, the client's interleaving and the instant of any cancellation: if the transport answered
+    the round trip with the server's reply (no synthetic non-OK status) and has delivered a prefix of
+    what the server wrote over an intact connection, then the trailer status recorded in the client —
+    the one `RecvMsg` reports when no transport or context error was recorded — is the code of what
+    the handler returned (`trailerCode e`: its status code, Canceled / DeadlineExceeded for context
+    errors, Unknown for other errors, Internal for a non-nil error that says OK). -/
+theorem C02_http_end_to_end_status (cs : Bool) (req : List HttpServerStream.ReqItem)
+    (hacts : List HttpServerStream.Act) (s1 : HttpServerStream.St) (rs : List InprocStream.Res)
+    (hsrv : HttpServerStream.run (HttpServerStream.init cs req) hacts = some (s1, rs))
+    (e : Option InprocStream.HErr) (s2 : HttpServerStream.St) (r : InprocStream.Res)
+    (hret : HttpServerStream.step s1 (.ret e) = some (s2, r)) (hw : s2.writeFailed = false) (hc : s2.connBroken = false)
+    (rsFlag : Bool) (cacts : List Act) (sc : St) (hcli : HttpClientStream.run (HttpClientStream.init rsFlag) cacts = some sc)
+    (hfeed : itemsIn cacts <+: itemsOf s2.wire) (hnost : ∀ c, Act.tReplyStatus c ∉ cacts)
+    (c : Nat) (htr : sc.tr = some c) : c = HttpServerStream.trailerCode e := by
+  have h := run_trcode cacts _ sc hcli c htr
+  simp only [HttpClientStream.init] at h
+  have hmem : HttpClientStream.Item.trailer c true ∈ itemsIn cacts := by
+    rcases h with h | h | h | h
+    · simp at h
+    · simp at h
+    · exact h
+    · exact absurd h (hnost c)
+  obtain ⟨fs, hfs, hwire⟩ := HttpServerStream.reply_complete cs req hacts s1 rs e s2 r hsrv hret hw hc
+  obtain ⟨hitems, _⟩ := itemsOf_complete (HttpServerStream.okHdr hacts rs) fs (HttpServerStream.trailerCode e) (HttpServerStream.trailersSet hacts) hfs
+  rw [hwire, hitems] at hfeed
+  exact (prefix_with_trailer _ _ c _ hfeed hmem).2
+
+end HttpCompose
